@@ -242,17 +242,22 @@ def make_model_class():
         def _sched(self, how, arg, node, prio):
             sim = self.simulator
             seq = self.seq
+            kw = {"seq": seq, "node": node, "tag": TAG}
+            if seq in self.faults and self.prog.get("fault_kind") == "bad-kwargs":
+                # the event that will fail is one whose keyword arguments do not fit the handler: the call fails when
+                # the event is carried out (not a moment earlier), the handler body never runs
+                kw["unexpected_argument"] = seq
             if self.direct:
                 t = sim.simulator_time if how == "now" else (sim.simulator_time + arg if how == "rel" else arg)
-                ev = sim.schedule_event(DirectEvent(t, self, "h", prio, seq=seq, node=node, tag=TAG))
+                ev = sim.schedule_event(DirectEvent(t, self, "h", prio, **kw))
             elif how == "now":
-                ev = sim.schedule_event_now(self, "h", prio, seq=seq, node=node, tag=TAG)
+                ev = sim.schedule_event_now(self, "h", prio, **kw)
             elif how == "rel":
-                ev = sim.schedule_event_rel(arg, self, "h", prio, seq=seq, node=node, tag=TAG)
+                ev = sim.schedule_event_rel(arg, self, "h", prio, **kw)
             elif how == "abs":
-                ev = sim.schedule_event_abs(arg, self, "h", prio, seq=seq, node=node, tag=TAG)
+                ev = sim.schedule_event_abs(arg, self, "h", prio, **kw)
             else:
-                ev = sim.schedule_event(SimEvent(arg, self, "h", prio, seq=seq, node=node, tag=TAG))
+                ev = sim.schedule_event(SimEvent(arg, self, "h", prio, **kw))
             self.seq += 1
             self.events.append(ev)
 
@@ -745,6 +750,9 @@ class RefSim:
             if self.on_warmup is not None:
                 self.on_warmup(self)
             return
+        if e[3] in self.faults and self.p.get("fault_kind") == "bad-kwargs":
+            self.executed_faults += 1          # the call itself fails: no handler body, no trace entry
+            return "fault"
         self.trace.append([e[3], e[4], enc_ref(e[0])])
         if self.on_exec is not None:
             self.on_exec(self, e[3], e[4])
